@@ -94,6 +94,10 @@ def run_C19(ctx, args):
         "the Hash field of a candidate is assigned by the harness independently of its content (the round logic only reads the field)",
         "a candidate's own transaction list has no repeats (checked elsewhere in the kernel)",
     ]
+    if ctx.tier == "thorough":
+        # growth: how snapshots reach the live round - the chain's final pool and poll loop (spec/Pool, DESIGN.md 13.5.2)
+        import pool
+        pool.run_pool(ctx)
 
 
 # ------------------------------------------------------------------------------------- C20
